@@ -446,12 +446,13 @@ def run_bridge(ck, pid):
     ck.obligation("translator gen_goroutines_writer (append programs of onSpan / onEntries) ran on %s/writer" % vcheck.REPO, rc2 == 0 and bool(gen2), o2[-1500:])
     if not gen1 or not gen2:
         return
-    okm, o = ck.coq_make(["model/IngestBridge.vo", "model/IngestFraming.vo"])
+    okm, o = ck.coq_make(["model/IngestBridge.vo", "model/IngestFraming.vo", "model/IngestWidths.vo"])
     if not okm:
         ck.obligation("model/IngestBridge.v compiles", False, o[-1500:])
         return
     gen1 = re.sub(r"^(From Coq|Import ListNotations|Open Scope).*\n", "", gen1, flags=re.M)
-    txt = (gen2 + "\nFrom Coq Require Import Bool NArith.\nFrom Qryn Require Import model.Ingest model.PushHandler model.IngestSpec model.IngestBridge.\n" + gen1 +
+    txt = (gen2 + "\nFrom Coq Require Import Bool NArith.\nFrom Qryn Require Import model.Ingest model.PushHandler model.IngestSpec model.IngestBridge.\nFrom Qryn Require model.IngestWidths.\n" + gen1 +
+           "\nDefinition WID := Eval vm_compute in (hp_width_check gen_on_span_cols && IngestWidths.producers_eqb gen_c02_id_producers IngestWidths.id_producers_model)%bool.\nPrint WID.\n"
            "\nDefinition BOK := Eval vm_compute in bridge_ok gen_on_span_cols gen_spans_fields gen_attrs_fields gen_on_entries_cols gen_spl_fields gen_tsd_fields.\nPrint BOK.\n"
            "Definition UNK := Eval vm_compute in (gen_on_span_unknown, ep_unknown gen_on_entries_cols).\nPrint UNK.\n"
            "Definition COK := Eval vm_compute in columns_ok gen_c02_columns.\nPrint COK.\n"
@@ -487,14 +488,17 @@ def run_bridge(ck, pid):
                   val("AGR") == "true", "consumed_agree = %s" % val("AGR"))
     ck.obligation("the regenerated struct field lists are the ones the instance parsed_pushes_give_good_blocks is stated over, and the regenerated onSpan behaves as the "
                   "transcribed one on probe spans", val("SAME") == "true", "SAME = %s" % val("SAME"))
-    if not (ok_b and ok_c and val("AGR") == "true" and val("SAME") == "true"):
+    ck.obligation("FixedString widths: the regenerated onSpan starts with the 16 / 8 byte width check and is the only place under writer/ that appends to a trace-id / span-id "
+                  "slice of a request struct (hypotheses of parser_span_requests_never_reach_the_width_panic / regenerated_on_span_appends_only_fixed_widths)",
+                  val("WID") == "true", "WID = %s" % val("WID"))
+    if not (ok_b and ok_c and val("AGR") == "true" and val("SAME") == "true" and val("WID") == "true"):
         m1 = re.search(r"Definition gen_on_span_cols.*?Definition gen_ffa_guard", gen2, re.S)
         m2 = re.search(r"Definition gen_on_entries_cols.*?gen_tsd_consumed[^\n]*", gen2, re.S)
         ck.violation({"property": pid, "kind": "the batching handlers / ProcessRequest closures are not the ones the parser-to-block bridge is proved for",
                       "explanation": "model/IngestBridge.v: a request sent by a parser is the table of its rows because every slice field of the request struct is appended exactly once "
                                      "per submitted row (bridge_ok) and every INSERT column reads one such field (columns_ok / details_ok); the regenerated programs / tables fail that check, "
                                      "so a block can hold a row whose fields come from different submitted rows, or columns of different lengths",
-                      "bridge_ok": val("BOK"), "unknown_statements": val("UNK"), "columns_ok": val("COK"), "details_ok": val("DOK"), "consumed_agree": val("AGR"), "same": val("SAME"),
+                      "bridge_ok": val("BOK"), "unknown_statements": val("UNK"), "columns_ok": val("COK"), "details_ok": val("DOK"), "consumed_agree": val("AGR"), "same": val("SAME"), "width_check_and_id_producers": val("WID"),
                       "generated_columns": gen1[-3000:], "generated_on_span": (m1.group(0) if m1 else "")[:3000], "generated_on_entries": (m2.group(0) if m2 else "")[:2000],
                       "replay": "translate/gen_c02_columns /dev/stdout; translate/gen_goroutines_writer; compare with kind_fields / on_span_cols_model in coq/model"}, no_input=True)
     ck.extra.setdefault("input_distribution", {})["bridge"] = {"services": 6, "bridge_ok": val("BOK"), "columns_ok": val("COK"), "details_ok": val("DOK")}
@@ -620,8 +624,8 @@ def case2_to_coq(c, wps=1):
                     own.append("(%d%%N, %d%%N, KSub %d %d)" % (run[0], run[1], hn, i))
                 i += 1
         hn += 1
-    return ("{| d_id := (%d)%%Z; d_cfg := %s; d_attempts := %d%%N; d_dials := %s; d_drained := %s; d_handlers := %d;\n     d_ops := %s;\n     d_obs := %s;\n     d_own := %s;\n     d_conf := %s |}"
-            % (c["id"], cfg, c.get("attempts", 1), dials, b(c.get("drained")), len(c.get("reqs") or []), coq_list(ops), coq_list(obs), coq_list(own), coq_list(confs)))
+    return ("{| d_id := (%d)%%Z; d_cfg := %s; d_attempts := %d%%N; d_dials := %s; d_drained := %s; d_handlers := %d;\n     d_ops := %s;\n     d_obs := %s;\n     d_own := %s;\n     d_repeat := %s;\n     d_conf := %s |}"
+            % (c["id"], cfg, c.get("attempts", 1), dials, b(c.get("drained")), len(c.get("reqs") or []), coq_list(ops), coq_list(obs), coq_list(own), b(c.get("repeat")), coq_list(confs)))
 
 
 def eval_cases2(ck, name, cases):
@@ -666,7 +670,10 @@ def run_level2(ck, pid):
         v2 += b2
     nontab = [c for c in good if any(e["t"] == "send" and not block_is_table(e) for l in (c.get("obs") or []) for e in (l or []))]
     return {"cases": cases, "good": good, "broken": broken, "mism": mism, "v1": v1, "v2": v2, "nontab": nontab,
-            "byid": {c["id"]: c for c in cases}, "notfresh": [c["id"] for c in good if c["id"] not in FRESH2]}
+            "byid": {c["id"]: c for c in cases},
+            # a script that pushes the same series twice submits the same series row twice: not fresh by design (class repeat)
+            "notfresh": [c["id"] for c in good if c["id"] not in FRESH2 and not c.get("repeat")],
+            "repeat": [c for c in good if c.get("repeat")]}
 
 
 def shrink2(ck, case, still_bad, budget=30):
